@@ -373,8 +373,15 @@ func checkEnvelope(data []byte, expectedType msgType) ([]byte, error) {
 		headerLen  = int(data[5])
 		flags      = data[6]
 		actualType = msgType(data[7])
-		payload    = data[headerLen:]
 	)
+
+	// The header length is the offset of the payload. It can neither be
+	// smaller than the fixed part of the header nor point past the end of the
+	// data.
+	if headerLen < envelopeMinHeaderLen || headerLen > len(data) {
+		return nil, fmt.Errorf("invalid envelope header length: %d", headerLen)
+	}
+	payload := data[headerLen:]
 
 	if actualType != expectedType {
 		return nil, fmt.Errorf("MsgType mismatch: expected %v, got %v", expectedType, actualType)
